@@ -175,7 +175,7 @@ def run_case(case, obs):
     if r.outcome in ("rally-error", "user-interrupted"):
         # a pre-empted handler holds its actor for the length of the window; events queued behind it are late by that much
         pre = max([sim_race.PREEMPT[i % len(sim_race.PREEMPT)] for i in (case.get("preempt") or [0])])
-        bound = r.fired_at + 2 * (wake + 0.125) + 6 * max_delay + 2 * longest + 2.0 + 10 * pre
+        bound = r.fired_at + 2 * (wake + 0.125) + 6 * max_delay + 2 * longest + 2.0 + 40 * pre
         obs.check(r.t_outcome <= bound, "notification-late", f"fault at {r.fired_at:.3f}, race control learnt at {r.t_outcome:.3f} (bound {bound:.3f})")
     # 3. no final results stored or printed
     if kind == "cancel":
